@@ -11,7 +11,7 @@ equal the reference "split after each delimiter, no empty trailing element"
 list of the files in order; with include_path every line is paired with the
 path of the file it came from; files_per_partition only regroups.
 
-Files are written under /var/tmp/bag1/<pid>/ and removed in ``finally``.
+Files are written under /var/tmp/vf-c50/<pid>/ and removed in ``finally``.
 
 Newline handling (why "\\r" is kept out of the alphabet when linedelimiter is
 None): without an explicit delimiter both code paths read in universal-newline
@@ -57,7 +57,7 @@ ASSUMPTIONS = [
     "linedelimiter='' is not exercised (it is no delimiter for read_bytes)",
 ]
 
-SCRATCH = "/var/tmp/bag1"
+SCRATCH = "/var/tmp/vf-c50"
 _counter = itertools.count()
 
 
@@ -101,6 +101,18 @@ def TEARDOWN():
 
 def self_overlapping(d):
     return any(d[:i] == d[-i:] for i in range(1, len(d)))
+
+
+def overlapping_occurrences(text, d):
+    """two occurrences of d in text overlap each other (e.g. 'aaa' for 'aa'): only then does "the" split depend on
+    where scanning starts, which is what distinguishes the block-wise readers from the left-to-right str.split"""
+    i = text.find(d)
+    while i != -1:
+        j = text.find(d, i + 1)
+        if j != -1 and j - i < len(d):
+            return True
+        i = j
+    return False
 
 
 def delim_class(d):
@@ -227,6 +239,11 @@ def check_text(spec):
         blocksize_none=bs is None,
         delim=delim_class(d),
         all_files_empty=all_empty,
+        # a delimiter that the io layer does not treat as a newline convention (read_text splits the text itself)
+        custom_delim=d not in (None, "\n", "\r", "\r\n"),
+        # some file contains two occurrences of the delimiter that overlap each other (only possible for
+        # self-overlapping delimiters); the known block-alignment findings need this, nothing else may hide behind them
+        overlapping_occurrences=d is not None and any(overlapping_occurrences(t, d) for t in texts),
     )
     with _Files(contents) as paths:
         want = []
@@ -276,6 +293,8 @@ def classes_text(spec):
         yield "files-per-partition"
     if spec.get("include_path"):
         yield "include-path"
+    if spec["delim"] is not None and any(overlapping_occurrences(t, spec["delim"]) for t in spec["files"]):
+        yield "overlapping-occurrences"
 
 
 # --------------------------------------------------------------------- enumeration
